@@ -304,12 +304,12 @@ class DurationTypeIO(GraphSONTypeIO):
     cql_type = 'duration'
 
     _duration_regex = re.compile(r"""
-        ^P((?P<days>\d+)D)?
+        ^P((?P<days>-?\d+)D)?
         T((?P<hours>\d+)H)?
         ((?P<minutes>\d+)M)?
         ((?P<seconds>[0-9.]+)S)?$
     """, re.VERBOSE)
-    _duration_format = "P{days}DT{hours}H{minutes}M{seconds}S"
+    _duration_format = "P{days}DT{hours}H{minutes}M{seconds:f}S"
 
     _seconds_in_minute = 60
     _seconds_in_hour = 60 * _seconds_in_minute
@@ -317,9 +317,9 @@ class DurationTypeIO(GraphSONTypeIO):
 
     @classmethod
     def serialize(cls, value, writer=None):
-        total_seconds = int(value.total_seconds())
-        days, total_seconds = divmod(total_seconds, cls._seconds_in_day)
-        hours, total_seconds = divmod(total_seconds, cls._seconds_in_hour)
+        # timedelta is normalized: only days may be negative, 0 <= seconds < 86400, 0 <= microseconds < 10**6
+        days = value.days
+        hours, total_seconds = divmod(value.seconds, cls._seconds_in_hour)
         minutes, total_seconds = divmod(total_seconds, cls._seconds_in_minute)
         total_seconds += value.microseconds / 1e6
 
